@@ -317,6 +317,8 @@ pub fn run(name: &str, args: &[String]) -> Result<bool, String> {
     match name {
         "roundtrip" => roundtrip(args),
         "chrono" => Ok(chrono_sweep()),
+        "oracle" => oracle_sweep(args),
+        "oracle_proleptic" => Ok(oracle_proleptic()),
         "time" => Ok(time_sweep()),
         "reforming_all" => reforming_all(args),
         _ => Err(format!(
@@ -324,4 +326,56 @@ pub fn run(name: &str, args: &[String]) -> Result<bool, String> {
             name
         )),
     }
+}
+
+
+/// `sweep oracle <lo> <hi> <stride>`: brute-force oracle over the window of every reforming calendar R in lo..=hi by stride
+fn oracle_sweep(args: &[String]) -> Result<bool, String> {
+    if args.len() != 3 {
+        return Err("usage: sweep oracle <lo> <hi> <stride>".into());
+    }
+    let lo: i64 = args[0].parse().map_err(|_| "bad lo")?;
+    let hi: i64 = args[1].parse().map_err(|_| "bad hi")?;
+    let stride: i64 = args[2].parse().map_err(|_| "bad stride")?;
+    let n = if hi >= lo { (hi - lo) / stride + 1 } else { 0 };
+    let acc = par(0, n - 1, 64, |a, b, acc| {
+        for k in a..=b {
+            let r = lo + k * stride;
+            if r < 1830692 || r > 2147439588 {
+                continue;
+            }
+            let c = crate::oracle::Cal::R(r as i32);
+            let (w0, w1) = crate::oracle::window(c);
+            let mut seen: Vec<String> = Vec::new();
+            let mut rep = |kind: &str, msg: String| {
+                let line = crate::oracle::case_line(kind, &msg);
+                if !seen.contains(&line) {
+                    seen.push(line.clone());
+                    acc.fail(r, format!("{line} # {kind}: {}", msg.chars().take(160).collect::<String>()));
+                }
+            };
+            crate::oracle::check_cal(c, w0, w1, &mut rep);
+            acc.checked += 1;
+        }
+    });
+    Ok(report("oracle", acc))
+}
+
+/// the two proleptic calendars over whole-year windows around the anchors, century boundaries and both range ends
+fn oracle_proleptic() -> bool {
+    let mut acc = Acc::default();
+    let windows: [(i64, i64); 9] = [(-4716, -4708), (-3, 5), (296, 304), (1578, 1586), (1896, 1904), (1996, 2004), (-5884200, -5884196), (5874770, 5874775), (-102, -96)];
+    for (ci, c) in [crate::oracle::Cal::J, crate::oracle::Cal::G].into_iter().enumerate() {
+        for (y0, y1) in windows {
+            let (y0, y1) = if ci == 1 && y0 < -5884000 { (-5884321, -5884317) } else if ci == 1 && y0 > 5874000 { (5874891, 5874896) } else { (y0, y1) };
+            let (w0, w1) = crate::oracle::proleptic_window(c, y0, y1);
+            let mut rep = |kind: &str, msg: String| {
+                let line = crate::oracle::case_line(kind, &msg);
+                acc.fail(w0, format!("{line} # {kind}: {}", msg.chars().take(160).collect::<String>()));
+            };
+            crate::oracle::check_cal(c, w0, w1, &mut rep);
+            acc.checked += 1;
+        }
+    }
+    report("oracle_proleptic", acc)
 }
